@@ -194,6 +194,8 @@ class SimSocket(object):
         self.net.switch('send')
         if self.closed:
             raise OSError(9, 'Bad file descriptor')
+        if self.server is None:
+            raise BrokenPipeError(32, 'Broken pipe')
         self.nsend += 1
         if self.server.fail_send_after is not None and self.nsend > self.server.fail_send_after:
             raise BrokenPipeError(32, 'Broken pipe')
@@ -215,12 +217,14 @@ class SimSocket(object):
         self.net.switch('shutdown')
         if self.closed:
             raise OSError(9, 'Bad file descriptor')
+        if self.server is None:
+            raise OSError(107, 'Transport endpoint is not connected')
         self.net.log.append(('shutdown', self.server.index))
 
     def close(self):
         self.net.switch('close')
         self.closed = True
-        self.net.log.append(('close', self.server.index))
+        self.net.log.append(('close', self.server.index if self.server is not None else None))
 
     def settimeout(self, t):
         pass
@@ -249,6 +253,9 @@ class Net(object):
         self.clock = 1000.0
         self.thread_results = []
         self.switch_hook = None
+        self.join_hook = None
+        self.start_hook = None
+        self.loop_events = []
         self.saved = None
 
     def switch(self, what):
@@ -298,18 +305,33 @@ class Net(object):
                             raise EndOfScript()
                 return ready, [], []
 
+        C_NetworkingThread = C.NetworkingThread
+
         class SimThread(C.NetworkingThread):
             def start(self_):
+                if net.start_hook is not None:
+                    net.threads.append(self_)
+                    self_.sim_state = 'pending'
+                    return net.start_hook(self_)
                 net.pending.append(self_)
                 net.threads.append(self_)
                 self_.sim_state = 'pending'
 
             def is_alive(self_):
-                return getattr(self_, 'sim_state', None) == 'running'
+                return getattr(self_, 'sim_state', None) in ('pending', 'running')
 
             def join(self_, timeout=None):
+                if net.join_hook is not None:
+                    return net.join_hook(self_)
                 if self_.is_alive():
-                    raise RuntimeError('join on a running thread in a synchronous simulation')
+                    raise RuntimeError('join on a live thread in a synchronous simulation')
+
+            def _run(self_):
+                net.loop_events.append(('enter', self_))
+                try:
+                    return C_NetworkingThread._run(self_)
+                finally:
+                    net.loop_events.append(('exit', self_))
 
         fake_timeit = types.SimpleNamespace(default_timer=self.tick)
 
